@@ -376,8 +376,8 @@ def generated_size_part(chk, repo, d, inc, tier, broken):
                                "msg": f"memory.size on a {kind} memory is emitted as `si0={sz};`, the model assumes the translator "
                                       "always emits a call of wasmMemorySize"})
         if shared:
-            rc, o4, e4 = gs.run(gexe, [1, iters, 1], timeout=300)
-            rc, o5, e5 = gs.run(gexe, [3, iters, 3], timeout=300)
+            rc, o4, e4 = gs.run(gexe, [1, iters, 1], timeout=120)
+            rc, o5, e5 = gs.run(gexe, [3, iters, 3], timeout=120)
             ent["tsan"] = {"one_grower_one_size_reader_race": "data race" in e4, "result": o4,
                            "growers_and_size_readers_race": "data race" in e5, "result3": o5}
             chk.count_case(("tsan-generated", kind, "g1s1"), True, None)
@@ -404,7 +404,49 @@ def driver_lines(lines):
     return vlib.DriverProc(CONCDRIVER).batch(lines)
 
 
+HANGS = []
+_gs_run = gs.run
+
+
+def _run_hang_aware(exe, args, env=None, timeout=60):
+    """a run of the real code that does not finish is an ANSWER (deadlock / livelock of the code under test), not a tool failure"""
+    import subprocess
+    if any(h["harness"] == os.path.basename(exe) for h in HANGS):
+        return "timeout", "", "TIMEOUT (not run again: this harness already hung once in this check)"
+    try:
+        return _gs_run(exe, args, env=env, timeout=timeout)
+    except subprocess.TimeoutExpired as te:
+        HANGS.append({"harness": os.path.basename(exe), "args": [str(a) for a in args], "timeout_s": timeout})
+        out = te.stdout.decode("utf-8", "replace") if isinstance(te.stdout, bytes) else (te.stdout or "")
+        err = te.stderr.decode("utf-8", "replace") if isinstance(te.stderr, bytes) else (te.stderr or "")
+        return "timeout", out.strip(), err + "\nTIMEOUT after %ss" % timeout
+
+
+gs.run = _run_hang_aware
+
+
+def _hang_violations(chk):
+    for h in HANGS[:4]:
+        chk.violation("real-code-hangs:%s" % h["harness"],
+                      "the real wasmMemoryGrow / wasmMemorySize code driven by `%s %s` did not finish within %ss (deadlock or livelock: "
+                      "threads that only grow, query the size and access memory must terminate)" % (h["harness"], " ".join(h["args"]), h["timeout_s"]),
+                      dict(h, kind="hang"), True)
+
+
 def run(tier):
+    del HANGS[:]
+    try:
+        return _run(tier)
+    except Exception:
+        if not HANGS:
+            raise
+        chk = vlib.Check(PROP, tier)
+        chk.notes.append("the check was cut short by a hang of the code under test; only the hang is reported")
+        _hang_violations(chk)
+        return chk.finish()
+
+
+def _run(tier):
     chk = vlib.Check(PROP, tier)
     chk.coverage["trusted_base"] = list(vlib.GLOBAL_TRUSTED) + [
         "pthread mutexes provide mutual exclusion and happens-before (POSIX); plain U32 reads/writes of descriptor "
@@ -793,6 +835,7 @@ def run(tier):
                       "non-linearizable result on the real header", {"broken": broken[:20]}, False)
     elif broken:
         chk.notes.append({"broken": broken[:10]})
+    _hang_violations(chk)
     return chk.finish()
 
 
@@ -802,6 +845,19 @@ def replay(path):
         repo = vlib.copy_repo(os.path.join(d, "repo"))
         inc = os.path.join(repo, "w2c2")
         key = r.get("key")
+        if r.get("kind") == "hang":
+            if r["harness"].startswith("gen_"):
+                gexe, _ = gs.build_generated(get_w2c2(repo, d), inc, os.path.join(d, "genmod"), shared=True, imported=False)
+                exe = gexe
+            elif "tsan" in r["harness"]:
+                exe = gs.build(inc, d, "grow_tsan", ["-fsanitize=thread", "-DGROW_FREE_RUNNING"])
+            elif "free" in r["harness"]:
+                exe = gs.build(inc, d, "grow_free", ["-DGROW_FREE_RUNNING"])
+            else:
+                exe = gs.build(inc, d)
+            rc, out, err = gs.run(exe, r["args"], timeout=r.get("timeout_s", 300))
+            print("replay %s %s: %s" % (r["harness"], " ".join(r["args"]), "does not finish within %ss" % r.get("timeout_s", 300) if rc == "timeout" else "finishes (rc %s)" % rc))
+            return 1 if rc == "timeout" else 0
         if key in ("memory-size-unlocked-read-race", "grow-descriptor-data-race", "grow-writes-data-of-shared-memory") \
                 or (key == "grow-zero-fill-after-publishing-size" and r.get("args", [""])[0] == "stress"):
             bad = False
